@@ -193,6 +193,118 @@ Proof.
   apply (Rtop_drop W po pc o a b [co] (strip T wa) (strip T wb)); assumption.
 Qed.
 
+(* ---- every option combination of the writer ------------------------------------------------ *)
+Variable OW : wopts.
+
+(* the `a != b` form is only produced under identity_infix *)
+Definition negid_ok (s : sent) : bool := negb (wo_idinfix OW) || no_negid s.
+
+Lemma negid_ok_quant q v b : negid_ok (Quant q v b) = true -> negid_ok b = true.
+Proof. unfold negid_ok. cbn [no_negid]. auto. Qed.
+
+Lemma negid_ok_bin o a b : negid_ok (Bin o a b) = true -> negid_ok a = true /\ negid_ok b = true.
+Proof.
+  unfold negid_ok. cbn [no_negid]. destruct (wo_idinfix OW); cbn [negb orb]; [|auto].
+  intros H. apply andb_true_iff in H. exact H.
+Qed.
+
+Lemma negid_ok_un o a : negid_ok (Un o a) = true ->
+  negid_ok a = true /\
+  (wo_idinfix OW = true -> forall args, o = Negation -> a = Pred (PSys Identity) args -> False).
+Proof.
+  unfold negid_ok. destruct (wo_idinfix OW); cbn [negb orb].
+  - intros H. destruct (no_negid_un o a H) as [H1 H2]. split; [exact H1 | intros _; exact H2].
+  - intros _. split; [reflexivity | discriminate].
+Qed.
+
+Lemma write_stdo_in_un o a :
+  (wo_idinfix OW = true -> forall args, o = Negation -> a = Pred (PSys Identity) args -> False) ->
+  write_stdo_in OW S (Un o a) = oapp (w_uop W o) (write_stdo_in OW S a).
+Proof.
+  intros H. destruct o; destruct a as [i sub|p args|q v b|o' a'|o' a' b']; try reflexivity.
+  destruct p as [[]|]; try reflexivity.
+  cbn [write_stdo_in]. destruct (wo_idinfix OW) eqn:E; [|reflexivity].
+  exfalso. eapply (H eq_refl); reflexivity.
+Qed.
+
+Lemma write_stdo_in_rs : forall s, wf_items s = true -> negid_ok s = true ->
+  exists w, write_stdo_in OW S s = Some w /\ Rs W po pc s (strip T w).
+Proof.
+  induction s as [i sub|p args|q [i sub] b IH|o a IH|o a IHa b IHb]; intros Hwf Hnn.
+  - cbn [wf_items] in Hwf. apply Nat.leb_le in Hwf.
+    destruct (ag_atom _ _ AG i Hwf) as [c [Hc Hl]].
+    destruct (wcoords_nw (w_atom W i) c (IAtom i) sub Hc Hl ltac:(discriminate)) as [w [Hw Nw]].
+    exists w. cbn [write_stdo_in]. split; [exact Hw|]. rewrite Nw. apply Rs_atom. exact Hw.
+  - cbn [wf_items] in Hwf. apply andb_true_iff in Hwf. destruct Hwf as [Hwf H3].
+    apply andb_true_iff in Hwf. destruct Hwf as [H1 H2]. apply Nat.eqb_eq in H3.
+    destruct (wpred_nw p H1) as [wp [Hp Np]].
+    cbn [write_stdo_in]. destruct (should_infix OW p) eqn:Esi.
+    + unfold should_infix in Esi. apply andb_true_iff in Esi. destruct Esi as [Har _].
+      apply Nat.ltb_lt in Har.
+      destruct args as [|a rest]; [cbn [length] in H3; lia|].
+      cbn [forallb] in H2. apply andb_true_iff in H2. destruct H2 as [Ha Hr].
+      destruct (wparam_nw a Ha) as [wa [Ea Na]]. destruct (wparams_nw rest Hr) as [wr [Er Nr]].
+      assert (Hx : exists wx, (if is_identity p then sw_ws S else Some []) = Some wx /\ strip T wx = []).
+      { destruct (is_identity p); [exists wsp; split; assumption | exists []; split; reflexivity]. }
+      destruct Hx as [wx [Ex Nx]].
+      exists (wa ++ wx ++ wp ++ wx ++ wr ++ []).
+      cbv zeta. rewrite Ea, Ex, Hp, Er. cbn [oapps fold_right oapp]. split; [reflexivity|].
+      rewrite !strip_app, Nx, Na, Np, Nr. cbn [app strip filter]. rewrite app_nil_r.
+      apply Rs_infix; try assumption.
+    + destruct (wparams_nw args H2) as [wps [Hps Nps]]. exists (wp ++ wps).
+      rewrite Hp, Hps. cbn [oapp]. split; [reflexivity|].
+      rewrite strip_app, Np, Nps. apply Rs_pred; assumption.
+  - cbn [wf_items fst] in Hwf. apply andb_true_iff in Hwf. destruct Hwf as [H1 H2].
+    apply Nat.leb_le in H1. apply negid_ok_quant in Hnn.
+    destruct (IH H2 Hnn) as [wb [Hb Rb]].
+    destruct (ag_quant _ _ AG q) as [cq [Hq Hlq]].
+    destruct (ag_var _ _ AG i H1) as [cv [Hv Hlv]].
+    destruct (wcoords_nw (w_var W i) cv (IVar i) sub Hv Hlv ltac:(discriminate)) as [wv [Ev Nv]].
+    exists ([cq] ++ wv ++ wb ++ []). cbn [write_stdo_in]. rewrite Hq, Ev, Hb.
+    cbn [oapps fold_right oapp]. split; [reflexivity|].
+    rewrite !strip_app, Nv. rewrite (strip_sym cq (IQuant q) [] Hlq ltac:(discriminate)).
+    cbn [strip filter]. rewrite app_nil_r.
+    apply (Rs_quant W po pc q i sub b [cq] wv (strip T wb)); assumption.
+  - cbn [wf_items] in Hwf. destruct (negid_ok_un o a Hnn) as [Hna Hx].
+    destruct (IH Hwf Hna) as [wa [Ha Ra]].
+    destruct (ag_uop _ _ AG o) as [co [Ho Hlo]].
+    exists ([co] ++ wa). rewrite (write_stdo_in_un o a Hx), Ho, Ha. cbn [oapp]. split; [reflexivity|].
+    rewrite strip_app, (strip_sym co (IOper1 o) [] Hlo ltac:(discriminate)). cbn [strip filter].
+    apply (Rs_un W po pc o a [co] (strip T wa)); assumption.
+  - cbn [wf_items] in Hwf. apply andb_true_iff in Hwf. destruct Hwf as [H1 H2].
+    destruct (negid_ok_bin o a b Hnn) as [N1 N2].
+    destruct (IHa H1 N1) as [wa [Ha Ra]]. destruct (IHb H2 N2) as [wb [Hb Rb]].
+    destruct (ag_bop _ _ AG o) as [co [Ho Hlo]].
+    exists ([po] ++ wa ++ wsp ++ [co] ++ wsp ++ wb ++ [pc] ++ []).
+    cbn [write_stdo_in]. rewrite Hso, Ha, Hws, Ho, Hb, Hsc. cbn [oapps fold_right oapp].
+    split; [reflexivity|].
+    rewrite !strip_app, Hwsp.
+    rewrite (strip_sym po IParenOpen [] Hpo ltac:(discriminate)).
+    rewrite (strip_sym co (IOper2 o) [] Hlo ltac:(discriminate)).
+    rewrite (strip_sym pc IParenClose [] Hpc ltac:(discriminate)).
+    cbn [strip filter app].
+    apply (Rs_bin W po pc o a b [co] (strip T wa) (strip T wb)); assumption.
+Qed.
+
+Lemma write_stdo_rtop : forall s, wf_items s = true -> negid_ok s = true ->
+  exists w, write_stdo OW S s = Some w /\ Rtop W po pc s (strip T w).
+Proof.
+  intros s Hwf Hnn.
+  assert (Hin : exists w, write_stdo_in OW S s = Some w /\ Rtop W po pc s (strip T w)).
+  { destruct (write_stdo_in_rs _ Hwf Hnn) as [w [Hw Rw]]. exists w. split; [exact Hw | apply Rtop_in; exact Rw]. }
+  destruct s as [i sub|p args|q v b|o a|o a b]; try exact Hin.
+  cbn [write_stdo]. destruct (wo_drop OW); [|exact Hin].
+  cbn [wf_items] in Hwf. apply andb_true_iff in Hwf. destruct Hwf as [H1 H2].
+  destruct (negid_ok_bin o a b Hnn) as [N1 N2].
+  destruct (write_stdo_in_rs a H1 N1) as [wa [Ha Ra]]. destruct (write_stdo_in_rs b H2 N2) as [wb [Hb Rb]].
+  destruct (ag_bop _ _ AG o) as [co [Ho Hlo]].
+  exists (wa ++ wsp ++ [co] ++ wsp ++ wb ++ []).
+  rewrite Ha, Hws, Ho, Hb. cbn [oapps fold_right oapp]. split; [reflexivity|].
+  rewrite !strip_app, Hwsp. rewrite (strip_sym co (IOper2 o) [] Hlo ltac:(discriminate)).
+  cbn [strip filter app]. rewrite app_nil_r.
+  apply (Rtop_drop W po pc o a b [co] (strip T wa) (strip T wb)); assumption.
+Qed.
+
 End SRT.
 
 (* boolean side condition on the regenerated tables *)
@@ -328,4 +440,119 @@ Proof.
   destruct (std_roundtrip_plain T S O e Tok Hag s2 R2 N2) as [w2 [E2 [_ P2]]].
   rewrite W1 in E1. rewrite W2 in E2. inversion E1; inversion E2; subst.
   rewrite P1 in P2. inversion P2. reflexivity.
+Qed.
+
+(* ---- the same for every option combination of the writer --------------------------------------
+   drop_parens, identity_infix and max_infix change the spelling, never the sentence: every
+   rendering stays inside the renderings of StdDenotes.v.  Without identity_infix the `a != b`
+   form is not produced and negated identities round-trip as well (negid_ok). *)
+
+Theorem std_roundtrip_opts : forall T S O OW, table_ok T = true -> std_agree_b T S O = true ->
+  forall s, roundtrippable s = true -> negid_ok OW s = true ->
+  exists w, write_stdo OW S s = Some w /\
+            parse_std_opts (cfg_of T false) O (decls s) w = (OK s, decls s) /\
+            parse_std_opts (cfg_of T true) O [] w = (OK s, decls s).
+Proof.
+  intros T S O OW Tok Hag s Hrt Hnn. unfold std_agree_b in Hag. rewrite !andb_true_iff in Hag.
+  destruct Hag as [[[[[[Hagb Ho] Hc] Hw] Hpo] Hpc] Hd].
+  destruct (sw_popen S) as [[|co [|]]|] eqn:Eo; try discriminate. apply N.eqb_eq in Ho. subst co.
+  destruct (sw_pclose S) as [[|cc [|]]|] eqn:Ec; try discriminate. apply N.eqb_eq in Hc. subst cc.
+  destruct (sw_ws S) as [ws|] eqn:Ew; [|discriminate]. apply strip_all_ws in Hw.
+  destruct (tlookup T (popen O)) as [[]|] eqn:Lo; try discriminate.
+  destruct (tlookup T (pclose O)) as [[]|] eqn:Lc; try discriminate.
+  assert (Hwf : wf_items s = true).
+  { unfold roundtrippable in Hrt. rewrite !andb_true_iff in Hrt. tauto. }
+  destruct (write_stdo_rtop T S (popen O) (pclose O) ws (agree_b_sound _ _ Hagb) Eo Ec Ew Hw Lo Lc OW s Hwf Hnn)
+    as [w [Hw' HR]].
+  exists w. split; [exact Hw'|].
+  exact (std_denotes_lang T (sw S) O Tok Hagb Lo Lc Hd s (strip T w) w Hrt HR eq_refl).
+Qed.
+
+Lemma wpred_patch S e p : p <> PSys Existence -> wpred (sw (patch_exist S e)) p = wpred (sw S) p.
+Proof. destruct p as [[]|]; try reflexivity. intros H. exfalso. apply H. reflexivity. Qed.
+
+Lemma write_stdo_in_patch OW S e : forall s, no_exist s = true ->
+  write_stdo_in OW (patch_exist S e) s = write_stdo_in OW S s.
+Proof.
+  induction s as [i sub|p args|q [i sub] b IH|o a IH|o a IHa b IHb]; intros H.
+  - reflexivity.
+  - assert (Hp : p <> PSys Existence). { intros ->. discriminate. }
+    cbn [write_stdo_in]. rewrite (wpred_patch S e p Hp), wparams_patch.
+    destruct args as [|a rest]; [reflexivity|]. rewrite wparam_patch, wparams_patch. reflexivity.
+  - cbn [no_exist] in H. cbn [write_stdo_in]. rewrite (IH H). reflexivity.
+  - cbn [no_exist] in H. specialize (IH H).
+    destruct o; destruct a as [ai asub|p args|q v b|o' a'|o' a' b'];
+      try (cbn [write_stdo_in] in *; rewrite IH; reflexivity).
+    all: destruct p as [[]|pi psub pa]; try discriminate;
+      try (cbn [write_stdo_in] in *; rewrite IH; reflexivity).
+  - cbn [no_exist] in H. apply andb_true_iff in H. destruct H as [H1 H2].
+    cbn [write_stdo_in]. rewrite (IHa H1), (IHb H2). reflexivity.
+Qed.
+
+Lemma write_stdo_patch OW S e s : no_exist s = true -> write_stdo OW (patch_exist S e) s = write_stdo OW S s.
+Proof.
+  intros H. destruct s as [i sub|p args|q v b|o a|o a b]; try (apply write_stdo_in_patch; exact H).
+  cbn [write_stdo]. destruct (wo_drop OW); [|apply write_stdo_in_patch; exact H].
+  cbn [no_exist] in H. apply andb_true_iff in H. destruct H as [H1 H2].
+  rewrite (write_stdo_in_patch OW S e a H1), (write_stdo_in_patch OW S e b H2). reflexivity.
+Qed.
+
+Theorem std_roundtrip_opts_plain : forall T S O OW e, table_ok T = true ->
+  std_agree_b T (patch_exist S e) O = true ->
+  forall s, roundtrippable s = true -> negid_ok OW s = true -> no_exist s = true ->
+  exists w, write_stdo OW S s = Some w /\
+            parse_std_opts (cfg_of T false) O (decls s) w = (OK s, decls s) /\
+            parse_std_opts (cfg_of T true) O [] w = (OK s, decls s).
+Proof.
+  intros T S O OW e Tok Hag s Hrt Hn He.
+  destruct (std_roundtrip_opts T (patch_exist S e) O OW Tok Hag s Hrt Hn) as [w [Hw HP]].
+  exists w. rewrite <- (write_stdo_patch OW S e s He). split; assumption.
+Qed.
+
+Corollary write_stdo_injective_plain : forall T S O OW e, table_ok T = true ->
+  std_agree_b T (patch_exist S e) O = true ->
+  forall s1 s2 w, roundtrippable s1 = true -> negid_ok OW s1 = true -> no_exist s1 = true ->
+  roundtrippable s2 = true -> negid_ok OW s2 = true -> no_exist s2 = true ->
+  write_stdo OW S s1 = Some w -> write_stdo OW S s2 = Some w -> s1 = s2.
+Proof.
+  intros T S O OW e Tok Hag s1 s2 w R1 N1 X1 R2 N2 X2 W1 W2.
+  destruct (std_roundtrip_opts_plain T S O OW e Tok Hag s1 R1 N1 X1) as [w1 [E1 [_ P1]]].
+  destruct (std_roundtrip_opts_plain T S O OW e Tok Hag s2 R2 N2 X2) as [w2 [E2 [_ P2]]].
+  rewrite W1 in E1. rewrite W2 in E2. inversion E1; inversion E2; subst.
+  rewrite P1 in P2. inversion P2. reflexivity.
+Qed.
+
+Lemma negid_cases o a :
+  (exists args, o = Negation /\ a = Pred (PSys Identity) args) \/
+  (forall args, o = Negation -> a = Pred (PSys Identity) args -> False).
+Proof.
+  destruct o; try (right; intros; discriminate).
+  destruct a as [i sub|p args|q v b|o' a'|o' a' b']; try (right; intros; discriminate).
+  destruct p as [[]|]; try (right; intros ? ? E; discriminate E). left; eauto.
+Qed.
+
+(* the default options give the writer of the first part *)
+Lemma write_stdo_default_in S : forall s, write_stdo_in wopts_default S s = write_std_in S s.
+Proof.
+  induction s as [i sub|p args|q [i sub] b IH|o a IH|o a IHa b IHb].
+  - reflexivity.
+  - destruct p as [[]|pi psub pa]; cbn [write_stdo_in write_std_in].
+    + destruct args; reflexivity.
+    + reflexivity.
+    + unfold should_infix. cbn [wo_maxinfix wopts_default is_identity andb orb].
+      rewrite Nat.ltb_irrefl || idtac.
+      replace (pred_arity (PUser pi psub pa) <? 0) with false by (symmetry; apply Nat.ltb_ge; lia).
+      rewrite andb_false_r. reflexivity.
+  - cbn [write_stdo_in write_std_in]. rewrite IH. reflexivity.
+  - destruct (negid_cases o a) as [[args [-> ->]]|Hno].
+    + cbn [write_stdo_in write_std_in wo_idinfix wopts_default].
+      destruct args as [|p1 [|p2 rest]]; reflexivity.
+    + rewrite (write_stdo_in_un S wopts_default o a (fun _ => Hno)), (write_std_in_un S o a Hno), IH. reflexivity.
+  - cbn [write_stdo_in write_std_in]. rewrite IHa, IHb. reflexivity.
+Qed.
+
+Lemma write_stdo_default S s : write_stdo wopts_default S s = write_std S s.
+Proof.
+  destruct s as [i sub|p args|q v b|o a|o a b]; try apply write_stdo_default_in.
+  cbn [write_stdo write_std wo_drop wopts_default]. rewrite !write_stdo_default_in. reflexivity.
 Qed.
